@@ -198,7 +198,161 @@ fn write_replay(meta: &Meta, original: &Trace, min: &Trace, o: &Outcome, execs: 
     Ok(path)
 }
 
+/// Budget of the envsim engine per tier: (histories for C09, histories for the Auto part of C08).
+fn env_budget(tier: &str) -> (u64, u64) {
+    let scale = env_u64("VERIF_ENV_HISTORIES");
+    match tier {
+        "thorough" => (scale.unwrap_or(600_000), scale.unwrap_or(150_000)),
+        _ => (scale.unwrap_or(48_000), scale.unwrap_or(12_000)),
+    }
+}
+
+fn env_replay_doc(prop: &str, mode: &str, v: &Value, seed: u64) -> (String, Value) {
+    let run = v["run"].as_u64().unwrap_or(0);
+    let path = format!("{VERIF}/replays/{prop}-env-{seed}-{}.json", if run == u64::MAX { "sweep".to_string() } else { run.to_string() });
+    let doc = json!({
+        "property": prop,
+        "engine": "envsim",
+        "mode": mode,
+        "violation_class": v["class"],
+        "violation_detail": v["detail"],
+        "event_log_hash": v["event_log_hash"],
+        "trace_signature": v["signature"],
+        "trace": {"ops": v["ops"]},
+        "event_log": v["event_log"],
+        "minimisation": {"executions": v["minimisation_executions"], "original_ops": v["original_ops"], "minimised_ops": v["ops"].as_array().map(|a| a.len())},
+        "origin": {"verif_seed": seed, "run": v["run"]},
+        "replay_cmd": format!("/verif/check replay {path}"),
+    });
+    (path, doc)
+}
+
+/// Report an envsim violation unless it is a listed known finding.  Returns true if reported.
+fn report_env_violation(prop: &str, mode: &str, v: &Value, seed: u64, known_hits: &mut Vec<String>) -> Result<bool, String> {
+    let class = v["class"].as_str().unwrap_or("");
+    let sig = v["signature"].as_str().unwrap_or("");
+    if let Some(k) = load_known().iter().find(|k| k.prop == prop && k.class == class && k.sig == sig) {
+        println!("KNOWN-FINDING: {}", k.text);
+        known_hits.push(k.text.clone());
+        return Ok(false);
+    }
+    let (path, doc) = env_replay_doc(prop, mode, v, seed);
+    std::fs::create_dir_all(format!("{VERIF}/replays")).map_err(|e| e.to_string())?;
+    std::fs::write(&path, serde_json::to_string_pretty(&doc).unwrap() + "\n").map_err(|e| e.to_string())?;
+    println!("violation class={class} (envsim, history {}) minimised to {} ops", v["run"], v["ops"].as_array().map(|a| a.len()).unwrap_or(0));
+    println!("  {}", v["detail"].as_str().unwrap_or(""));
+    for l in v["event_log"].as_array().into_iter().flatten() {
+        println!("  | {}", l.as_str().unwrap_or(""));
+    }
+    println!("VIOLATION property={prop} replay={path}");
+    Ok(true)
+}
+
+fn env_summary(b: &crate::envsim::EnvBatch) -> Value {
+    json!({
+        "engine": "envsim (single-threaded child processes owning environment, global choice and fd 1/2)",
+        "histories": b.histories,
+        "operations": b.ops,
+        "child_processes": b.children,
+        "distinct_nontrivial_histories": b.distinct,
+        "cross_product_cells_visited": b.cells,
+        "cross_product_cells_total": crate::envsim::CELLS,
+        "sweep_cells_enumerated": b.sweep_cells,
+        "reach_probes": b.probes,
+        "batch_digest": format!("{:016x}", b.digest),
+        "wall_s": b.wall_s,
+    })
+}
+
+pub fn cmd_run_c09(tier_name: &str) -> ExitCode {
+    let seed = verif_seed();
+    let tier = if tier_name == "thorough" { "thorough" } else { "quick" };
+    let (hist, _) = env_budget(tier);
+    let w = workers();
+    println!("vsim: property=C09 tier={tier} VERIF_SEED={seed} histories={hist} children={w} + exhaustive sweep of {} cells", crate::envsim::CELLS);
+    let b = crate::envsim::run_parent("C09", seed, hist, w, true);
+    if let Some(e) = &b.harness_error {
+        eprintln!("vsim: HARNESS ERROR: {e}");
+        return ExitCode::from(2);
+    }
+    let mut known_hits = Vec::new();
+    let mut violations = 0;
+    if let Some(v) = &b.violation {
+        match report_env_violation("C09", "C09", v, seed, &mut known_hits) {
+            Ok(true) => violations = 1,
+            Ok(false) => {}
+            Err(e) => {
+                eprintln!("vsim: HARNESS ERROR: {e}");
+                return ExitCode::from(2);
+            }
+        }
+    }
+    if violations == 0 && b.cells as u32 != crate::envsim::CELLS {
+        eprintln!("vsim: HARNESS ERROR: only {} of {} cross-product cells were visited", b.cells, crate::envsim::CELLS);
+        return ExitCode::from(2);
+    }
+    let hours = (b.wall_s / 3600.0).max(1e-9);
+    let samples: Vec<Value> = if violations == 1 { vec![b.violation.clone().unwrap()] } else { b.samples.clone() };
+    let ev = json!({
+        "property_id": "C09",
+        "tier": tier,
+        "seed": seed,
+        "level": "exploration",
+        "coverage": {
+            "evaluations": b.histories + b.sweep_cells,
+            "distinct_nontrivial": b.distinct as u64 + b.cells as u64,
+            "rule": "one evaluation = one history of 20-60 world operations (setenv/unsetenv of NO_COLOR, CLICOLOR_FORCE, CLICOLOR, TERM, COLORTERM, CI; ColorChoice::write_global; the clap --color flag; re-pointing fd 1/2 at a pty or a regular file) interleaved with probes (AutoStream::choice, auto(..).current_choice, new(.., Auto), every anstyle_query function, ColorChoice::global, and 'a stream keeps its mode when the world changes afterwards') over 10 stream kinds, executed in a single-threaded child process against the real code and compared with a 15-line decision function written from the property statement; plus one evaluation per cell of the stated 4x4x4x4x4x3x2 cross product, enumerated exhaustively in a seeded order as one long history. Non-trivial history = at least one probe after a world change; distinct = distinct op-list signatures of such histories plus distinct cells visited",
+            "samples": samples,
+            "exhaustive": false,
+            "cross_product_exhaustive": b.cells as u32 == crate::envsim::CELLS,
+            "cross_product_cells_visited": b.cells,
+            "cross_product_cells_total": crate::envsim::CELLS,
+            "sweep_cells_enumerated": b.sweep_cells,
+            "histories": b.histories,
+            "operations": b.ops,
+            "distinct_nontrivial_histories": b.distinct,
+            "child_processes": b.children,
+            "runs_per_hour": (b.histories as f64 / hours) as u64,
+            "seeds_per_hour": (b.histories as f64 / hours) as u64,
+            "simulated_time_s": 0,
+            "simulated_time_note": "no clock in the code under test; progress is measured in operations",
+            "logical_steps": b.ops,
+            "faults_fired": {},
+            "fault_kinds_note": "no fault injection applies: the injected nondeterminism is the history of environment, global-choice and descriptor changes",
+            "world_operations_and_probes": b.probes,
+            "components_real_code": ["anstream::AutoStream::{choice,auto,new,current_choice,is_terminal}", "anstream::stream IsTerminal impls for File/Stdout/Stderr/locks/Vec/Box<dyn Write>", "anstyle_query::*", "colorchoice::ColorChoice::{global,write_global}", "colorchoice_clap::Color (clap derive parse, as_choice, write_global)", "real setenv/unsetenv, real pty (posix_openpt) and isatty"],
+            "components_stubbed": [],
+            "determinism": {"batch_digest": format!("{:016x}", b.digest), "note": "each history resets the world first; 1 in 53 histories is re-executed and its event-log hash compared"},
+            "known_findings_hit": known_hits,
+        },
+        "assumptions": [
+            "the world is owned by single-threaded child processes; other processes' environments are irrelevant",
+            "Always materialises as pass-through (AlwaysAnsi) on this non-Windows platform",
+            "COLORTERM and the clap flag are probed separately from the cross product, as the property says",
+            "clap rejects values outside auto/always/never (only 'sometimes' is generated as an invalid value)",
+        ],
+        "wall_s": b.wall_s,
+        "violations": violations,
+    });
+    let _ = std::fs::create_dir_all(format!("{VERIF}/evidence"));
+    if let Err(e) = std::fs::write(format!("{VERIF}/evidence/C09.json"), serde_json::to_string_pretty(&ev).unwrap() + "\n") {
+        eprintln!("vsim: HARNESS ERROR: cannot write evidence: {e}");
+        return ExitCode::from(2);
+    }
+    if violations > 0 {
+        return ExitCode::from(1);
+    }
+    println!(
+        "vsim: C09 held on {} histories ({} ops, {} distinct non-trivial) + {} sweep cells; {}/{} cells visited; {:.1}s; digest {:016x}",
+        b.histories, b.ops, b.distinct, b.sweep_cells, b.cells, crate::envsim::CELLS, b.wall_s, b.digest
+    );
+    ExitCode::SUCCESS
+}
+
 pub fn cmd_run(id: &str, tier_name: &str) -> ExitCode {
+    if id == "C09" {
+        return cmd_run_c09(tier_name);
+    }
     let Some(meta) = props::lookup(id) else {
         eprintln!("vsim: unknown property {id}");
         return ExitCode::from(2);
@@ -269,8 +423,33 @@ pub fn cmd_run(id: &str, tier_name: &str) -> ExitCode {
         }
     }
 
+    let mut extra = json!({});
+    if id == "C08" {
+        // the Auto choice depends on the process environment: envsim part (see envsim.rs)
+        let (_, hist) = env_budget(tier.name);
+        let b = crate::envsim::run_parent("C08", seed, hist, tier.workers, false);
+        if let Some(e) = &b.harness_error {
+            eprintln!("vsim: HARNESS ERROR: {e}");
+            return ExitCode::from(2);
+        }
+        if let Some(v) = &b.violation {
+            match report_env_violation("C08", "C08", v, seed, &mut known_hits) {
+                Ok(true) => {
+                    let _ = write_evidence(&meta, &tier, seed, &batch, 1, &known_hits, json!({"envsim_auto_choice": env_summary(&b)}), vec![v.clone()]);
+                    return ExitCode::from(1);
+                }
+                Ok(false) => {}
+                Err(e) => {
+                    eprintln!("vsim: HARNESS ERROR: {e}");
+                    return ExitCode::from(2);
+                }
+            }
+        }
+        println!("vsim: C08 envsim part held on {} histories ({} ops) in {:.1}s", b.histories, b.ops, b.wall_s);
+        extra = json!({"envsim_auto_choice": env_summary(&b)});
+    }
     let samples = collect_samples(&meta, seed, &tier, 4);
-    if let Err(e) = write_evidence(&meta, &tier, seed, &batch, 0, &known_hits, json!({}), samples) {
+    if let Err(e) = write_evidence(&meta, &tier, seed, &batch, 0, &known_hits, extra, samples) {
         eprintln!("vsim: HARNESS ERROR: cannot write evidence: {e}");
         return ExitCode::from(2);
     }
@@ -301,6 +480,9 @@ pub fn cmd_replay(path: &str) -> ExitCode {
             return ExitCode::from(2);
         }
     };
+    if doc.get("engine").and_then(|x| x.as_str()) == Some("envsim") {
+        return ExitCode::from(crate::envsim::replay(&doc, path) as u8);
+    }
     let tv = doc.get("trace").unwrap_or(&doc);
     let trace = match Trace::from_json(tv) {
         Ok(t) => t,
@@ -362,6 +544,21 @@ pub fn cmd_selfcheck() -> ExitCode {
         println!(
             "selfcheck {id}: seed={seed} runs=4096 digests={} -> {}",
             digests.iter().map(|d| format!("{}w:{:016x}", d.0, d.1)).collect::<Vec<_>>().join(" "),
+            if same { "deterministic" } else { "MISMATCH" }
+        );
+        ok &= same;
+    }
+    for mode in ["C09", "C08"] {
+        let a = crate::envsim::run_parent(mode, seed, 2048, 1, false);
+        let b = crate::envsim::run_parent(mode, seed, 2048, workers(), false);
+        let c = crate::envsim::run_parent(mode, seed, 2048, 5, false);
+        let same = a.digest == b.digest && b.digest == c.digest && a.distinct == b.distinct && a.harness_error.is_none() && b.harness_error.is_none() && c.harness_error.is_none();
+        println!(
+            "selfcheck envsim/{mode}: seed={seed} histories=2048 digests=1p:{:016x} {}p:{:016x} 5p:{:016x} -> {}",
+            a.digest,
+            workers(),
+            b.digest,
+            c.digest,
             if same { "deterministic" } else { "MISMATCH" }
         );
         ok &= same;
